@@ -31,7 +31,7 @@ theorem disabled_trace_is_noop (cfg : Cfg) (d : DST) (e : ERT) (args : Args) (s 
     (trace cfg d e args s).halted = s.halted ∧
     ∃ new, (trace cfg d e args s).log = new ++ s.log ∧
       ∀ ev ∈ new, (∀ k a b c, ev = .cb k a b c → k = .clock) ∧ (∀ a b c f, ev ≠ .store a b c f) ∧
-        (∀ x y, ev ≠ .deliver x y) := by
+        (∀ x y z, ev ≠ .deliver x y z) := by
   obtain ⟨h1, h2, h3, new, h4, h5⟩ := disabled_trace_is_noop_core cfg d e args s hd
   refine ⟨h1, h2, h3, new, h4, ?_⟩
   intro ev hev
@@ -39,7 +39,7 @@ theorem disabled_trace_is_noop (cfg : Cfg) (d : DST) (e : ERT) (args : Args) (s 
   refine ⟨?_, ?_, ?_⟩
   · intro k a b c he; subst he; exact this
   · intro a b c f he; subst he; exact this
-  · intro x y he; subst he; exact this
+  · intro x y z he; subst he; exact this
 
 /-- From the moment tracing is disabled until it is enabled again (no toggle in the meantime): any
     number of tracing calls, of any event record types and arguments, leave buffer, position,
